@@ -464,3 +464,117 @@ func relLoopName(loop ast.Node) string {
 	}
 	return "for"
 }
+
+// E16.premature-use — the "default, then override" idiom: `x := a; if c { x = b }; use(x)`.
+// When a local has exactly one initial definition and one conditional re-definition in a later
+// sibling `if` of the same block, and is read after that `if`, a read placed between the
+// default and the override sees the default even when the override applies — the statement
+// was written (or moved) too early.
+var prematureUseExceptions = map[string]string{}
+
+func runPrematureUse(p *Prog, r *Report) {
+	nIdiom := 0
+	for _, fn := range p.Funcs {
+		if fn.Body == nil {
+			continue
+		}
+		info := fn.Info()
+		ast.Inspect(fn.Body, func(n ast.Node) bool {
+			if lit, ok := n.(*ast.FuncLit); ok && lit != fn.Lit {
+				return false
+			}
+			blk, ok := n.(*ast.BlockStmt)
+			if !ok {
+				return true
+			}
+			for i, st := range blk.List {
+				as, ok := st.(*ast.AssignStmt)
+				if !ok || as.Tok != token.DEFINE {
+					continue
+				}
+				for _, l := range as.Lhs {
+					id, ok := l.(*ast.Ident)
+					if !ok || id.Name == "_" {
+						continue
+					}
+					o := info.Defs[id]
+					if o == nil {
+						continue
+					}
+					defs := fn.Assignments(o)
+					if len(defs) != 2 {
+						continue
+					}
+					var other ast.Node
+					for _, d := range defs {
+						if d != ast.Node(as) {
+							other = d
+						}
+					}
+					oas, ok := other.(*ast.AssignStmt)
+					if !ok || oas.Tok != token.ASSIGN {
+						continue
+					}
+					// the override sits directly in the body of a later sibling if (no else)
+					overrideIdx := -1
+					for j := i + 1; j < len(blk.List); j++ {
+						ifs, ok := blk.List[j].(*ast.IfStmt)
+						if !ok || ifs.Else != nil {
+							continue
+						}
+						for _, s := range ifs.Body.List {
+							if s == ast.Stmt(oas) {
+								overrideIdx = j
+							}
+						}
+					}
+					if overrideIdx < 0 {
+						continue
+					}
+					// read after the override?
+					readAfter := false
+					for j := overrideIdx + 1; j < len(blk.List); j++ {
+						ast.Inspect(blk.List[j], func(z ast.Node) bool {
+							if u, ok := z.(*ast.Ident); ok && info.Uses[u] == o {
+								readAfter = true
+							}
+							return !readAfter
+						})
+					}
+					if !readAfter {
+						continue
+					}
+					nIdiom++
+					var early ast.Node
+					for j := i + 1; j < overrideIdx; j++ {
+						ast.Inspect(blk.List[j], func(z ast.Node) bool {
+							if u, ok := z.(*ast.Ident); ok && info.Uses[u] == o && early == nil {
+								// only reads whose path goes on to the override (a read in a
+								// branch that returns first legitimately uses the default)
+								if reachesStmt(fn, u, oas, nil) {
+									early = u
+								}
+							}
+							return early == nil
+						})
+					}
+					// the override's own condition may read the default
+					key := id.Name + " overridden under " + cmpText(blk.List[overrideIdx].(*ast.IfStmt).Cond)
+					switch {
+					case early == nil:
+						r.Add("E16.premature-use", fn.Name, key, p.Pos(as), OK, "no read between the default and its conditional override", true)
+					case prematureUseExceptions[fn.Name+"|"+id.Name] != "":
+						r.Add("E16.premature-use", fn.Name, key, p.Pos(early), Excepted, prematureUseExceptions[fn.Name+"|"+id.Name], true)
+					default:
+						r.Add("E16.premature-use", fn.Name, key, p.Pos(early), Violated,
+							fmt.Sprintf("%s is read at %s, between its default (%s) and the conditional override at %s, although it is also read after the override: this read never sees the overriding value", id.Name, p.Pos(early), p.Pos(as), p.Pos(oas)), true)
+					}
+				}
+			}
+			return true
+		})
+	}
+	r.Counts["E16.default-then-override-idioms"] = nIdiom
+	r.ExpectMin("E16.default-then-override-idioms", nIdiom, 3)
+	r.Clauses = append(r.Clauses, "E16.premature-use: a local with a default and one conditional override in a later sibling if is not read between the two when it is read after the override")
+}
